@@ -246,6 +246,11 @@ func propMain(args []string, o RunOpts, tier string) int {
 		if r.Error != "" {
 			if strings.HasPrefix(r.Error, "out-of-subset") {
 				outOfSubset = append(outOfSubset, r.Fn+": "+r.Error)
+			} else if strings.HasPrefix(r.Error, "contract error") {
+				// the contract can no longer be bound to the code (renamed local, moved call, ...):
+				// undecided, not a violation; the bounded stand-in decides
+				drift = append(drift, r.Fn+": "+r.Error)
+				fmt.Printf("CONTRACT-DRIFT: %s: %s (deductive part undecided for this run)\n", r.Fn, r.Error)
 			} else {
 				errs = append(errs, r.Fn+": "+r.Error)
 			}
